@@ -1,6 +1,163 @@
 import YaegiVerif.Common.Sexp
-/- Line-protocol front end for C12 (glue). Placeholder until the property's model exists. -/
+import YaegiVerif.Model.Typecheck
+import YaegiVerif.Spec.GoTyping
+import YaegiVerif.Generated.C12
+import YaegiVerif.Proofs.C12Dom
+/- Line-protocol front end for C12 (glue, not a proof obligation).
+   prog (FN…) BLOCK            → y=<ok|err|crash|abstain> g=<ok|err|abstain> lax=<none|class of the first differing check site>
+        FN    = ((param…) (result…) BLOCK)        params/results are simple types
+        BLOCK = (STMT…)
+   op OP KIND                  → y=<0|1> g=<0|1>      (table decision / Go specification)
+   pipeline COMPILEFAILS NORUN → err=<0|1> executed=<0|1> effects=<n> known=<0|1>
+   Types: basic name | (named id under (m…)) | (ptr S) | (slice S) | (array n S) | (map S S) | (chan dir S)
+          | (func (S…) (S…)) | (struct id (S…) (m…)) | (iface id (m…)) -/
 namespace YaegiVerif.Driver.C12
-open YaegiVerif
-def handle (_args : List Sexp) : String := "unimplemented"
+open YaegiVerif YaegiVerif.Typecheck
+
+def basic? : String → Option Basic
+  | "bool" => some .bool | "int" => some .int | "int8" => some .int8 | "int16" => some .int16 | "int32" => some .int32
+  | "int64" => some .int64 | "uint" => some .uint | "uint8" => some .uint8 | "uint16" => some .uint16
+  | "uint32" => some .uint32 | "uint64" => some .uint64 | "uintptr" => some .uintptr | "float32" => some .float32
+  | "float64" => some .float64 | "complex64" => some .complex64 | "complex128" => some .complex128
+  | "string" => some .string | _ => none
+
+def nats? (s : Sexp) : Option (List Nat) :=
+  match s with
+  | .list xs => xs.mapM Sexp.nat?
+  | _ => none
+
+def sty? : Sexp → Option STy
+  | .atom b => (basic? b).map STy.basic
+  | .list [.atom "named", id, .atom u, ms] => do
+    let i ← id.nat?
+    let b ← basic? u
+    let m ← nats? ms
+    some (.named ⟨i, b, m⟩)
+  | _ => none
+
+def stys? (s : Sexp) : Option (List STy) :=
+  match s with
+  | .list xs => xs.mapM sty?
+  | _ => none
+
+def dir? : Sexp → Option Dir
+  | .atom "both" => some .both | .atom "send" => some .send | .atom "recv" => some .recv | _ => none
+
+def ty? (s : Sexp) : Option Ty :=
+  match s with
+  | .list [.atom "ptr", t] => (sty? t).map Ty.ptr
+  | .list [.atom "slice", t] => (sty? t).map Ty.slice
+  | .list [.atom "array", n, t] => do some (.array (← n.nat?) (← sty? t))
+  | .list [.atom "map", k, v] => do some (.map (← sty? k) (← sty? v))
+  | .list [.atom "chan", d, t] => do some (.chan (← dir? d) (← sty? t))
+  | .list [.atom "func", a, r] => do some (.func (← stys? a) (← stys? r))
+  | .list [.atom "struct", id, f, m] => do some (.struct (← id.nat?) (← stys? f) (← nats? m))
+  | .list [.atom "iface", id, m] => do some (.iface (← id.nat?) (← nats? m))
+  | t => (sty? t).map Ty.s
+
+def unop? : String → Option UnOp
+  | "pos" => some .pos | "neg" => some .neg | "bitnot" => some .bitnot | "not" => some .not | _ => none
+def binop? : String → Option BinOp
+  | "add" => some .add | "sub" => some .sub | "mul" => some .mul | "quo" => some .quo | "rem" => some .rem
+  | "and" => some .and | "or" => some .or | "xor" => some .xor | "andnot" => some .andnot
+  | "land" => some .land | "lor" => some .lor | _ => none
+def cmpop? : String → Option CmpOp
+  | "eq" => some .eq | "ne" => some .ne | "lt" => some .lt | "le" => some .le | "gt" => some .gt | "ge" => some .ge | _ => none
+def shop? : String → Option ShOp
+  | "shl" => some .shl | "shr" => some .shr | _ => none
+def ukind? : String → Option UKind
+  | "bool" => some .bool | "int" => some .int | "rune" => some .rune | "float" => some .float | "string" => some .string
+  | _ => none
+
+mutual
+  partial def expr? (s : Sexp) : Option Expr :=
+    match s with
+    | .atom "nil" => some .nil
+    | .list [.atom "var", i] => i.nat?.map Expr.var
+    | .list [.atom "lit", .atom k, v, f] => do some (.lit (← ukind? k) (← v.int?) ((← f.nat?) != 0))
+    | .list [.atom "un", .atom op, e] => do some (.un (← unop? op) (← expr? e))
+    | .list [.atom "recv", e] => do some (.recv (← expr? e))
+    | .list [.atom "bin", .atom op, a, b] => do some (.bin (← binop? op) (← expr? a) (← expr? b))
+    | .list [.atom "cmp", .atom op, a, b] => do some (.cmp (← cmpop? op) (← expr? a) (← expr? b))
+    | .list [.atom "shift", .atom op, a, b] => do some (.shift (← shop? op) (← expr? a) (← expr? b))
+    | .list [.atom "call", f, as] => do some (.call (← f.nat?) (← args? as))
+    | .list [.atom "conv", t, e] => do some (.conv (← ty? t) (← expr? e))
+    | .list [.atom "index", a, i] => do some (.index (← expr? a) (← expr? i))
+    | _ => none
+  partial def args? (s : Sexp) : Option Args :=
+    match s with
+    | .list xs => xs.foldr (fun x acc => do some (.cons (← expr? x) (← acc))) (some .nil)
+    | _ => none
+end
+
+mutual
+  partial def stmt? (s : Sexp) : Option Stmt :=
+    match s with
+    | .list [.atom "decl", t, e] => do some (.decl (← ty? t) (← expr? e))
+    | .list [.atom "declz", t] => do some (.declz (← ty? t))
+    | .list [.atom "define", e] => do some (.define (← expr? e))
+    | .list [.atom "assign", i, e] => do some (.assign (← i.nat?) (← expr? e))
+    | .list [.atom "opassign", .atom op, i, e] =>
+      (match binop? op, shop? op with
+       | some b, _ => do some (.opassign b (← i.nat?) (← expr? e))
+       | none, some sh => do some (.shassign sh (← i.nat?) (← expr? e))
+       | none, none => none)
+    | .list [.atom "incdec", _, i] => do some (.incdec (← i.nat?))
+    | .list [.atom "send", c, e] => do some (.send (← expr? c) (← expr? e))
+    | .list [.atom "callstmt", f, as] => do some (.callS (← f.nat?) (← args? as))
+    | .list [.atom "if", c, t] => do some (.ifS (← expr? c) (← block? t) .nil)
+    | .list [.atom "ifelse", c, t, e] => do some (.ifS (← expr? c) (← block? t) (← block? e))
+    | .list [.atom "for", c, b] => do some (.forS (← expr? c) (← block? b))
+    | .list [.atom "ret", es] => do some (.ret (← args? es))
+    | _ => none
+  partial def block? (s : Sexp) : Option Block :=
+    match s with
+    | .list xs => xs.foldr (fun x acc => do some (.cons (← stmt? x) (← acc))) (some .nil)
+    | _ => none
+end
+
+def fn? (s : Sexp) : Option Fn :=
+  match s with
+  | .list [ps, rs, body] => do some ⟨⟨← stys? ps, ← stys? rs⟩, ← block? body⟩
+  | _ => none
+
+def op? : String → Option Op
+  | "inc" => some .inc | "dec" => some .dec | "pos" => some .pos | "neg" => some .neg | "bitnot" => some .bitnot
+  | "not" => some .not | "add" => some .add | "sub" => some .sub | "mul" => some .mul | "quo" => some .quo
+  | "rem" => some .rem | "and" => some .and | "or" => some .or | "xor" => some .xor | "andnot" => some .andnot
+  | "land" => some .land | "lor" => some .lor | _ => none
+
+def kind? : String → Option Kind
+  | "bool" => some .bool | "int" => some .int | "int8" => some .int8 | "int16" => some .int16 | "int32" => some .int32
+  | "int64" => some .int64 | "uint" => some .uint | "uint8" => some .uint8 | "uint16" => some .uint16
+  | "uint32" => some .uint32 | "uint64" => some .uint64 | "uintptr" => some .uintptr | "float32" => some .float32
+  | "float64" => some .float64 | "complex64" => some .complex64 | "complex128" => some .complex128
+  | "array" => some .array | "chan" => some .chan | "func" => some .func | "interface" => some .interface
+  | "map" => some .map | "ptr" => some .ptr | "slice" => some .slice | "string" => some .string
+  | "struct" => some .struct | "unsafePointer" => some .unsafePointer | _ => none
+
+def b01 (b : Bool) : String := if b then "1" else "0"
+
+def handle (args : List Sexp) : String :=
+  match args with
+  | [.atom "prog", .list fs, main] =>
+    (match fs.mapM fn?, block? main with
+     | some funcs, some m =>
+       let p : Prog := ⟨funcs, m⟩
+       let y := (checkProg (rulesY Generated.C12.tcFacts) p).verdict
+       let g := (checkProg Spec.rulesG p).verdict
+       s!"y={y.show} g={g.show} lax={laxName Generated.C12.tcFacts p}"
+     | _, _ => "bad-op")
+  | [.atom "op", .atom o, .atom k] =>
+    (match op? o, kind? k with
+     | some o, some k => s!"y={b01 (predY Generated.C12.opFacts o k)} g={b01 (Spec.definedOn o k)}"
+     | _, _ => "bad-op")
+  | [.atom "pipeline", cf, nr] =>
+    (match cf.bool?, nr.bool? with
+     | some cf, some nr =>
+       let o := evalY Generated.C12.pipeline nr ⟨cf, [], [1]⟩
+       s!"err={b01 o.err} executed={b01 o.executed} effects={o.effects.length} known={b01 o.known}"
+     | _, _ => "bad-op")
+  | _ => "bad-op"
+
 end YaegiVerif.Driver.C12
